@@ -33,4 +33,9 @@ def obligations(tier):
                                     1: "verify_detached accepts <=> all strictness checks and the cofactored equation on the right bytes",
                                     2: "sign_open <=> verify_detached; message/length on success; zero/untouched and mlen=0 on failure"}[part],
                               bounds="all seed/message/signature/key bytes; message length enumerated (quick 0,1,17,40; thorough 0..40)"))
+    for ml, sp in (((17, 5),) if tier != "thorough" else ((0, 0), (1, 1), (17, 0), (17, 5), (17, 17), (40, 17))):
+        obs.append(Ob("multipart-m%d-s%d" % (ml, sp), "C06/ed25519.c", units=UNITS + ["crypto_sign/crypto_sign.c"], stubs=STUBS, defs={"PART": 4, "MLEN": ml, "SPLIT": sp},
+                      unwind=240, timeout=1800, family="ed25519-multipart", replay="model", tier="quick" if (ml, sp) == (17, 5) else "thorough",
+                      desc="multi-part Ed25519ph API == pre-hashed signing / verification of SHA-512(m); generic crypto_sign_* names; sk_to_seed / sk_to_pk",
+                      bounds="all seed/message/signature/key bytes; (mlen, split) enumerated"))
     return obs
